@@ -15,7 +15,7 @@ func notYet(id string) {
 }
 
 func init() {
-	for _, id := range []string{"C01", "C02", "C03", "C04", "C05", "C07", "C08", "C10", "C11", "C12", "C13", "C15", "C20"} {
+	for _, id := range []string{"C01", "C02", "C03", "C04", "C05", "C07", "C08", "C10", "C11", "C13", "C15", "C20"} {
 		notYet(id)
 	}
 	claim("C06", "other",
@@ -48,4 +48,8 @@ func init() {
 		"Integer conversions are treated as exact (no overflow modelling); encoding/binary's AppendUintN is trusted.",
 		"affine normalisation of SSA index/compare expressions + dominator-derived path facts (entailment by linear combination); byte-layout extraction from OR-trees", "DESIGN.md 4/C19",
 		"Decided: R-SEEK, R-EOFSTRICT, R-BITIDX, R-LAYOUT, R-READPOS as described. Not decided: behaviour of the io.Reader/io.ReadSeeker/io.ReaderAt/file/mmap back ends beyond the in-memory Bytes() implementations (mmap's Bytes() is covered on unix builds); value round trip of arbitrary write/read sequences.")
+	claim("C12", "other",
+		"Static check that the bodies of parse.Input and buffer.Lexer implement exactly the documented start/pos arithmetic (affine normal forms of every store, index, slice bound and EOF comparison), that every escaping slice is capped (buf[a:b:b]), that PeekRune/MoveRune look-ahead reads and reported lengths are covered by guards that account for the position argument (arithmetically or by the sentinel argument), and that the constructors write the caller's array only at index len(b) under cap(b)>len(b) with Restore putting the byte back. History-level behaviour and UTF-8 decoding values are not decided.",
+		"Integer arithmetic treated as exact.", "affine normalisation of SSA expressions + dominator path facts; AST pattern rule for the borrow/restore idiom", "DESIGN.md 4/C12",
+		"Decided: R-INPUT, R-PEEKRUNE, R-BORROW. Not decided: behaviour over operation histories, decoded rune values, readers failing mid-stream (value/history-level).")
 }
